@@ -128,7 +128,3 @@ func cmdList(args []string) {
 	}
 }
 
-func cmdCheck(args []string) int {
-	fmt.Println("not implemented yet")
-	return 2
-}
